@@ -1,8 +1,10 @@
 #!/usr/bin/env python3
 """Regenerates the C20 entries of known_findings.json from spec/cmdline_table.json: one entry per failure family
-(outcome kind, exception type, innermost function), each listing EXACTLY the fault sites observed to fail when the
+(outcome kind, exception type, innermost function), each listing EXACTLY the faults (option / field / value, without the base command line) observed to fail when the
 table was built -- a site that starts to fail later is not covered.  Run by hand together with c20_bootstrap.py."""
-import json, re, collections
+import json, re, collections, sys
+sys.path.insert(0, '/verif'); sys.path.insert(0, '/repo')
+from harness.c20 import fault_key
 T = json.load(open('/verif/spec/cmdline_table.json'))
 KF = json.load(open('/verif/known_findings.json'))
 DESC = {
@@ -27,11 +29,12 @@ for k, v in T.items():
     exc = v['exc']
     if v['func'] == 'format_float':
         exc = 'ValueError|OverflowError'     # which of the two depends on the first bad number printed
-    fam[(v['kind'], exc, v['func'])].append(k)
+    fam[(v['kind'], exc, v['func'])].append(fault_key(k))
 KF['findings'] = [f for f in KF['findings'] if f['property'] != 'C20']
 for (kind, exc, func), sites in sorted(fam.items()):
     what, why = DESC.get((kind, func), ('uncaught failure (%s %s in %s)' % (kind, exc, func), 'not analysed'))
-    match = dict(kind=kind, site={'re': '|'.join(re.escape(s) for s in sorted(sites))})
+    sites = sorted(set(sites))
+    match = dict(kind=kind, site={'re': '|'.join(re.escape(s) for s in sites)})
     if exc:
         match['exc'] = {'re': exc} if '|' in exc else exc
     if func:
@@ -39,5 +42,14 @@ for (kind, exc, func), sites in sorted(fam.items()):
     KF['findings'].append(dict(id='C20-%s-%s-%s' % (kind, (exc or 'none').replace('|', '+'), func), property='C20', status='open', match=match,
                                what=what + ' [%d listed fault sites, e.g. %s]' % (len(sites), sorted(sites)[0]),
                                why_not_fixed=why, example=sorted(sites)[0]))
+KF['findings'].append(dict(
+    id='C20-nonfinite-nonpositive-input-power', property='C20', status='open',
+    match=dict(kind='nonfinite', func='PATTERN DATA', cause='nonpositive-input-power'),
+    what='when sources and active (negative-resistance) loads together take no power from the generators (sum of the printed '
+         'source powers <= 0) the directive gain is the logarithm of a non-positive number and NaN is printed in the far-field '
+         'table; identified by the condition, whatever option values produce it (e.g. --laplace-load-a=1,-1 with '
+         '--laplace-load-b=3,99,1e-16, --load=-5000)',
+    why_not_fixed='what to print for an antenna without net input power (diagnostic, absolute field only, ...) is a design decision',
+    example='ground/laplace_load_a#0/1/-1+ground/laplace_load_b#0/1/99'))
 json.dump(KF, open('/verif/known_findings.json', 'w'), indent=1)
 print(len(fam), 'C20 families,', sum(len(s) for s in fam.values()), 'sites')
